@@ -926,6 +926,11 @@ func (s *AbsfsNFS) Export(mountPath string, port int) error {
 	if port < 0 {
 		return fmt.Errorf("invalid port")
 	}
+	// One server per instance: a second one would replace the only reference to the
+	// first, which Unexport and Close could then never stop.
+	if s.exportServer != nil {
+		return fmt.Errorf("already exported: call Unexport first")
+	}
 
 	s.mountPath = mountPath
 
